@@ -375,26 +375,21 @@ func (r *Reconciler) selectNodes(logger logr.Logger, daemonset *datadoghqv1alpha
 		return nodeNameRestarts[nodeList.Items[i].Name] < nodeNameRestarts[nodeList.Items[j].Name]
 	})
 
-	// Filter Nodes Unschedulable
-	for _, node := range nodeList.Items {
-		found := false
-		var id int
-		for id = range currentNodes {
-			if node.Name == currentNodes[id] {
-				found = true
-
-				break
+	// Keep the already selected nodes that still exist (and still match the canary node selector) and can run the pod
+	var keptNodes []string
+	for _, name := range currentNodes {
+		for id := range nodeList.Items {
+			if nodeList.Items[id].Name != name {
+				continue
 			}
-		}
+			if scheduler.CheckNodeFitness(logger.WithValues("filter", "Nodes Unschedulabled"), newPod, &nodeList.Items[id]) {
+				keptNodes = append(keptNodes, name)
+			}
 
-		if !found {
-			continue
-		}
-
-		if !scheduler.CheckNodeFitness(logger.WithValues("filter", "Nodes Unschedulabled"), newPod, &node) {
-			currentNodes = append(currentNodes[:id], currentNodes[id+1:]...)
+			break
 		}
 	}
+	currentNodes = keptNodes
 
 	// Look for other nodes to use as canary
 	if len(currentNodes) < nbCanaryPod {
